@@ -269,6 +269,10 @@ where
     if only_inv {
         return ret(None);
     }
+    // reads of a quantity that no other task can change must return its sequential value
+    if let Some(v) = read_consistency(sc, &m0, &results, stats) {
+        return ret(Some(Violation::new(v.class, format!("{}; schedule: {}", v.detail, detail_events()))));
+    }
     // serialisability of the mutating calls
     let real: Vec<Lists> = (0..world.n()).map(|u| world.lists(u)).collect();
     let muts: Vec<Vec<(Op, Obs)>> = sc
@@ -306,6 +310,92 @@ where
         }
     }
     ret(None)
+}
+
+#[derive(Clone, Copy, PartialEq)]
+enum Side {
+    Out,
+    In,
+    Both,
+}
+
+/// which list(s) of which node a query reads
+fn read_set(op: &Op, directed: bool) -> Option<(usize, Side)> {
+    let s = |side| if directed { side } else { Side::Both };
+    Some(match op {
+        Op::OutDeg { u } | Op::IsLeaf { u } => (*u, s(Side::Out)),
+        Op::InDeg { u } | Op::IsRoot { u } => (*u, s(Side::In)),
+        Op::IsOrphan { u } | Op::Snapshot { u } => (*u, Side::Both),
+        Op::IsConnected { u, .. } | Op::FindOut { u, .. } => (*u, s(Side::Out)),
+        Op::FindIn { u, .. } => (*u, s(Side::In)),
+        _ => return None,
+    })
+}
+
+/// may this mutating call change the given list(s) of node `u`?
+fn may_write(op: &Op, u: usize, side: Side, directed: bool) -> bool {
+    match op {
+        Op::Isolate { .. } => true, // touches every neighbour: conservatively everything
+        Op::Connect { u: a, v: b, .. } | Op::TryConnect { u: a, v: b, .. } => {
+            if directed {
+                (*a == u && side != Side::In) || (*b == u && side != Side::Out)
+            } else {
+                *a == u || *b == u
+            }
+        }
+        Op::Disconnect { u: a, k, .. } => {
+            if directed {
+                (*a == u && side != Side::In) || (*k == u && side != Side::Out)
+            } else {
+                *a == u || *k == u
+            }
+        }
+        _ => false,
+    }
+}
+
+/// A query whose answer depends only on lists that no call of another task can change has one
+/// possible answer in every sequential order of the calls: the one after the task's own earlier
+/// calls. (Multi-step updates of other tasks cannot excuse a different answer: they do not touch
+/// those lists. A reader that falls back to a default when a lock is busy is what this catches.)
+fn read_consistency(sc: &ConcSc, m0: &Model, results: &[Vec<Obs>], stats: &mut Stats) -> Option<Violation> {
+    let directed = m0.directed;
+    for (t, script) in sc.tasks.iter().enumerate() {
+        let mut own = m0.clone();
+        let mut own_ok = true;
+        for (i, op) in script.iter().enumerate() {
+            let Some(obs) = results[t].get(i) else { break };
+            if op.is_mutation() {
+                // own earlier calls: with their recorded results (they only matter for the lists
+                // under test when nobody else writes those)
+                if own.apply(op, obs).is_err() {
+                    own_ok = false;
+                }
+                continue;
+            }
+            let Some((u, side)) = read_set(op, directed) else { continue };
+            if u >= own.n {
+                continue;
+            }
+            let others_write = sc.tasks.iter().enumerate().any(|(t2, s2)| t2 != t && s2.iter().any(|o| o.is_mutation() && may_write(o, u, side, directed)));
+            // own calls whose effect on these lists depends on lists others write (isolate of a
+            // neighbour, ...) are not modelled here
+            let own_isolates = script[..i].iter().any(|o| matches!(o, Op::Isolate { .. }));
+            if others_write || own_isolates || !own_ok {
+                continue;
+            }
+            stats.inc("reads_of_quantities_no_other_task_writes_checked");
+            let mut m = own.clone();
+            // compare only the side under test for snapshots of a directed node
+            if let Err(e) = m.apply(op, obs) {
+                return Some(Violation::new(
+                    format!("read-inconsistent:{}", op.name()),
+                    format!("t{t} call #{i} {op:?} returned {obs:?}, but no call of another task can change what it reads and after t{t}'s own earlier calls {e}"),
+                ));
+            }
+        }
+    }
+    None
 }
 
 fn switches(t: &[u32]) -> usize {
